@@ -368,3 +368,72 @@ Proof.
   - unfold fluent_texts. rewrite A2, B2. simpl.
     split; apply Permutation_in; apply Permutation_map; [|apply Permutation_sym]; apply comp_fluents_perm; exact P.
 Qed.
+
+(* ---------- copy, as used by Props ---------- *)
+Lemma state_copy_props (num_text : float -> string) s :
+  state_eq num_text (state_copy s) s = true /\ state_eq num_text s (state_copy s) = true /\
+  serialize num_text (state_copy s) = serialize num_text s.
+Proof. rewrite state_copy_id. repeat split; apply state_eq_refl. Qed.
+
+(* ---------- adding a fact, seen through any function that equal set members agree on ---------- *)
+Lemma gp_same_fields a b : gp_wf a -> gp_wf b -> gp_same a b = true ->
+  gp_name a = gp_name b /\ gp_pos a = gp_pos b /\ gp_objects a = gp_objects b.
+Proof.
+  intros [Ka Na] [Kb Nb]. unfold gp_same.
+  destruct (gp_typed a) as [ta|]; [|discriminate]. destruct (gp_typed b) as [tb|]; [|discriminate].
+  rewrite !andb_true_iff. intros [[[[_ En] Ep] Ek] Em].
+  apply String.eqb_eq in En. apply Bool.eqb_prop in Ep. apply strs_eqb_eq in Ek.
+  split; [exact En|]. split; [exact Ep|].
+  unfold gp_objects. apply sdict_eqb_values; [congruence|exact Na|exact Em].
+Qed.
+
+Lemma preds_add_image {B} (f : gpred -> B) key g d :
+  (forall a b, gp_wf a -> gp_wf b -> gp_same a b = true -> f a = f b) ->
+  gp_wf g -> all_wf (flat_map snd d) ->
+  (forall x, In x (map f (flat_map snd (preds_add key g d))) <-> In x (map f (flat_map snd d)) \/ x = f g) /\
+  all_wf (flat_map snd (preds_add key g d)).
+Proof.
+  intros Hf Wg Wd. unfold preds_add. destruct (dget d key) as [l|] eqn:G.
+  - unfold set_add. destruct (existsb (gp_same g) l) eqn:Ex.
+    + apply existsb_exists in Ex as (h & Hh & Es).
+      assert (Hin : In h (flat_map snd d)) by (eapply in_dget_sub; eauto).
+      assert (Wh : gp_wf h) by (unfold all_wf in Wd; rewrite Forall_forall in Wd; auto).
+      assert (Et : f g = f h) by (apply Hf; assumption).
+      assert (Same : forall y, In y (flat_map snd (dset d key l)) <-> In y (flat_map snd d)).
+      { intros y. rewrite (flat_map_dset_present d key l l G (fun _ H => H) y).
+        split; [intros [H|H]; [exact H|eapply in_dget_sub; eauto]|auto]. }
+      split.
+      * intros x. rewrite !in_map_iff. split.
+        -- intros (y & E & Hy). left. exists y. split; [exact E|apply Same; exact Hy].
+        -- intros [(y & E & Hy)| ->]; [exists y; split; [exact E|apply Same; exact Hy]|].
+           exists h. split; [symmetry; exact Et|apply Same; exact Hin].
+      * unfold all_wf in *. rewrite Forall_forall in *. intros y Hy. apply Wd, Same, Hy.
+    + assert (Sub : forall y, In y l -> In y (l ++ [g])) by (intros y Hy; apply in_or_app; auto).
+      pose proof (flat_map_dset_present d key l (l ++ [g]) G Sub) as P.
+      assert (P' : forall y, In y (flat_map snd (dset d key (l ++ [g]))) <-> In y (flat_map snd d) \/ y = g).
+      { intros y. rewrite P, in_app_iff. simpl. split.
+        - intros [H|[H|[H|[]]]]; auto. left. eapply in_dget_sub; eauto.
+        - intros [H|H]; auto. }
+      split.
+      * intros x. rewrite !in_map_iff. split.
+        -- intros (y & E & Hy). apply P' in Hy as [Hy| ->]; [left; exists y; auto|right; auto].
+        -- intros [(y & E & Hy)| ->]; [exists y; split; [exact E|apply P'; auto]|exists g; split; [reflexivity|apply P'; auto]].
+      * unfold all_wf in *. rewrite Forall_forall in *. intros y Hy. apply P' in Hy as [Hy| ->]; auto.
+  - pose proof (flat_map_dset_absent d key [g] G) as P.
+    assert (P' : forall y, In y (flat_map snd (dset d key [g])) <-> In y (flat_map snd d) \/ y = g).
+    { intros y. rewrite P. simpl. split; [intros [H|[H|[]]]; auto|intros [H|H]; auto]. }
+    split.
+    + intros x. rewrite !in_map_iff. split.
+      * intros (y & E & Hy). apply P' in Hy as [Hy| ->]; [left; exists y; auto|right; auto].
+      * intros [(y & E & Hy)| ->]; [exists y; split; [exact E|apply P'; auto]|exists g; split; [reflexivity|apply P'; auto]].
+    + unfold all_wf in *. rewrite Forall_forall in *. intros y Hy. apply P' in Hy as [Hy| ->]; auto.
+Qed.
+
+Lemma preds_add_atoms key g d :
+  gp_wf g -> all_wf (flat_map snd d) ->
+  (forall x, In x (map gp_atom (flat_map snd (preds_add key g d))) <-> In x (map gp_atom (flat_map snd d)) \/ x = gp_atom g) /\
+  all_wf (flat_map snd (preds_add key g d)).
+Proof.
+  apply preds_add_image. intros a b Wa Wb E. destruct (gp_same_fields a b Wa Wb E) as (En & _ & Eo).
+  unfold gp_atom. rewrite En, Eo. reflexivity.
+Qed.
